@@ -1,9 +1,10 @@
 ----------------------------- MODULE Trace_Collect -----------------------------
-EXTENDS CollectContract
+EXTENDS CollectContract, Json, IOUtils
 VARIABLES l, ok
 EvOK(e) == IF e.ev = "check" THEN CheckOK(e) ELSE IF e.ev = "scan" THEN ScanOK(e)
            ELSE IF e.ev = "selfscan" THEN SelfScanOK(e) ELSE TRUE
-T == INSTANCE TraceStateless WITH EventOK <- EvOK
+TraceData == ndJsonDeserialize(IOEnv.TRACE)
+T == INSTANCE TraceStateless WITH EventOK <- EvOK, Trace <- TraceData
 Spec == T!TSSpec
 Accepted == T!TSAccepted
 =============================================================================
